@@ -62,13 +62,14 @@ def create_ofdm_constraints(
 
         constraints.append(PAPRConstraint(max_papr=max_papr))
 
-    # Only add peak amplitude constraint if explicitly provided
-    if peak_amplitude is not None:
-        # Add explicit peak amplitude constraint if provided
-        constraints.append(PeakAmplitudeConstraint(peak_amplitude))
-
     # Add power constraint
     constraints.append(TotalPowerConstraint(total_power))
+
+    # Only add peak amplitude constraint if explicitly provided. It comes after the power
+    # scaling: clipping can only lower the power and the PAPR, whereas scaling up a clipped
+    # signal would push its peaks above the amplitude limit again.
+    if peak_amplitude is not None:
+        constraints.append(PeakAmplitudeConstraint(peak_amplitude))
 
     return CompositeConstraint(constraints)
 
